@@ -260,6 +260,31 @@ fn explicit_left_cycle(rules: &[Rule]) -> bool {
     false
 }
 
+/// Renames one rule to the name of a non-keyword built-in (a grammar may define those).
+fn rename_like_builtin(mut rules: Vec<Rule>, rng: &mut Rng) -> Vec<Rule> {
+    let cands: Vec<usize> = (0..rules.len()).filter(|i| rules[*i].name != "WHITESPACE" && rules[*i].name != "COMMENT").collect();
+    if cands.is_empty() {
+        return rules;
+    }
+    let i = *rng.pick(&cands);
+    let old = rules[i].name.clone();
+    let new = rng.pick(&["NEWLINE", "ASCII_DIGIT", "LETTER", "SPACE_SEPARATOR", "ASCII_ALPHA"]).to_string();
+    if rules.iter().any(|r| r.name == new) {
+        return rules;
+    }
+    fn ren(e: Expr, old: &str, new: &str) -> Expr {
+        e.map_bottom_up(|x| match x {
+            Expr::Ident(n) if n == old => Expr::Ident(new.to_string()),
+            o => o,
+        })
+    }
+    for r in rules.iter_mut() {
+        r.expr = ren(r.expr.clone(), &old, &new);
+    }
+    rules[i].name = new;
+    rules
+}
+
 #[derive(Debug)]
 enum Verdict {
     Terminated,
@@ -403,6 +428,7 @@ pub fn run(args: &Args) {
     cfg_a.wild_left_refs_pct = 45;
     cfg_a.max_rules = 4;
     cfg_a.shapes_pct = 10;
+    cfg_a.builtin_named_rules = true;
     let mut cfg_b = GenCfg::new(Profile::Guarded);
     cfg_b.max_rules = 6;
     cfg_b.max_depth = 5;
@@ -422,6 +448,7 @@ pub fn run(args: &Args) {
             1 => ("stuck_repetition", gen_stuck_rep(&mut grng)),
             _ => ("generator_no_stack_wild_left_refs", gen_grammar(&mut grng, &cfg_a)),
         };
+        let rules = if family != "generator_no_stack_wild_left_refs" && grng.chance(1, 4) { rename_like_builtin(rules, &mut grng) } else { rules };
         let text = vmon::print::rules_to_string(&rules);
         rep.count(&format!("a_generated:{family}"));
         debug_assert!(!uses_stack(&rules));
